@@ -423,6 +423,7 @@ func runCheck(chk *Check, tier, replay string, keep bool, only string) int {
 	outs := make([]string, len(jobs))
 	{
 		sem := make(chan int, maxPar)
+		var acq sync.Mutex
 		var wg sync.WaitGroup
 		for i, j := range jobs {
 			wg.Add(1)
@@ -435,9 +436,13 @@ func runCheck(chk *Check, tier, replay string, keep bool, only string) int {
 				if w > maxPar {
 					w = maxPar
 				}
+				// the w tokens are taken under a lock: two heavy jobs that each hold part of the
+				// tokens while waiting for the rest would wait for each other for ever
+				acq.Lock()
 				for k := 0; k < w; k++ {
 					sem <- 1
 				}
+				acq.Unlock()
 				defer func() {
 					for k := 0; k < w; k++ {
 						<-sem
